@@ -39,6 +39,16 @@ class EG:
         if d <= 0 or r.random() < .3:
             return self.var([0, 0, 1, 2]) if r.random() < .6 else self.lit(r.choice(['BInt', 'BFloat', 'BBool']))
         k = r.random()
+        if k < .15:
+            # a chain of different operators of one precedence level, folded from the left: a * b / c
+            level = r.choice([[AOPS[2], AOPS[3], AOPS[4]], [AOPS[0], AOPS[1]], [AOPS[8], AOPS[9]]])
+            a = self.num(d - 1)
+            text, term = a
+            for _ in range(r.randint(2, 3)):
+                op, c = r.choice(level)
+                b = self.num(0)
+                text, term = '%s %s %s' % (text, op, b[0]), '(EBin %s %s %s)' % (c, term, b[1])
+            return '(%s)' % text, term
         if k < .5:
             op, c = r.choice(AOPS[:5] if r.random() < .7 else AOPS)
             a, b = self.num(d - 1), self.num(d - 1)
@@ -215,6 +225,13 @@ def describe(v, depth=0):
     return ('obj', [c.__name__ for c in type(v).__mro__])
 
 
+def sig_of(inferred, runtime, via, kind='mismatch'):
+    """violation signature: the cause where it is known (and / or are typed bool whatever the operands are)"""
+    if via in ('OrCompare', 'AndCompare') and inferred == 'bool':
+        runtime = 'operand-type'
+    return '%s:%s-for-%s@%s' % (kind, inferred, runtime, via)
+
+
 def split_args(args):
     parts, depth, cur = [], 0, ''
     for ch in args:
@@ -230,6 +247,9 @@ def split_args(args):
     return parts
 
 
+TYPE_VARS = {'T', 'K', 'V', 'T_Value', 'T_Key', 'Self'}
+
+
 def fits(d, text):
     """does a value described by d have the type written `text` (tranp's short notation)?"""
     text = text.strip()
@@ -242,6 +262,8 @@ def fits(d, text):
         return True if any(r is True for r in rs) else (None if any(r is None for r in rs) else False)
     if name == 'Unknown':
         return False
+    if name in TYPE_VARS:
+        return None          # a type variable inside a generic definition: any type fits
     if isinstance(d, str):
         return d == name and not args
     if d[0] == 'list':
@@ -353,6 +375,13 @@ def run(ctx: Ctx) -> None:
     for i in range(n_expr):
         g = EG(rnd, typed=i % 4 != 3)
         exprs.append(g.any(rnd.choice([1, 2, 2, 3])))
+    # chains mixing the operators of one level (each step is typed by its own operator)
+    V0, V1, V2 = '(EVar 0)', '(EVar 1)', '(EVar 2)'
+    exprs += [('(v0 * v0 / 2)', '(EBin ODiv (EBin OMul %s %s) (ELit BInt))' % (V0, V0)), ('(v0 % 7 / 2)', '(EBin ODiv (EBin OMod %s (ELit BInt)) (ELit BInt))' % V0),
+              ('(2 * 7 / 2)', '(EBin ODiv (EBin OMul (ELit BInt) (ELit BInt)) (ELit BInt))'), ('(v2 * v2 / v0)', '(EBin ODiv (EBin OMul %s %s) %s)' % (V2, V2, V0)),
+              ('(v0 / 2 * v0)', '(EBin OMul (EBin ODiv %s (ELit BInt)) %s)' % (V0, V0)), ('(v0 - v0 + 1.5)', '(EBin OAdd (EBin OSub %s %s) (ELit BFloat))' % (V0, V0)),
+              ('(v0 + v1 - v0)', '(EBin OSub (EBin OAdd %s %s) %s)' % (V0, V1, V0)), ('(v0 * 2 % 7 / 2 + 1)', '(EBin OAdd (EBin ODiv (EBin OMod (EBin OMul %s (ELit BInt)) (ELit BInt)) (ELit BInt)) (ELit BInt))' % V0),
+              ('(v0 << 1 >> v0)', '(EBin OShr (EBin OShl %s (ELit BInt)) %s)' % (V0, V0))]
     icases, iraw, dcases, draw = [], [], [], []
     env = {n: v for n, _, v in VARS}
     header = 'def f(%s) -> None:\n' % ', '.join('%s: %s' % (n, t) for n, t, _ in VARS)
@@ -396,6 +425,13 @@ def run(ctx: Ctx) -> None:
             if d is not None:
                 dcases.append(coq_pair(term, d))
                 draw.append(dict(expr=text, cpython=d))
+                if ty is not None and fits(describe(val), got) is False:
+                    via = type(stmts[k].value).__name__
+                    if via == 'Group':
+                        via = type(stmts[k].value.expression).__name__
+                    ctx.violation(sig_of(re.sub(r'<.*', '', got), re.sub(r'<.*', '', short(describe(val))), via),
+                                  'the inferred type %s of the expression %s (a %s) is not the type %s its value has under CPython' % (got, text, via, short(describe(val))),
+                                  dict(input=dict(source=header + '\tx0 = %s\n' % text, symbol='f.x0', entries=[['f', [[v for _, _, v in VARS]]]]), oracle_result=short(describe(val)), impl_result=got))
     G = 'fun n => nth_error [%s] n' % '; '.join(VAR_TY)
     R = 'fun n => nth n [%s] (RB BNone)' % '; '.join(describe_rty(v) for _, _, v in VARS)
     ctx.correspond('infer_expression', IMPORTS, 'expr * option ty',
@@ -411,7 +447,7 @@ def run(ctx: Ctx) -> None:
 
     # ---- (c) oracle: inferred declaration types vs run-time types of whole programs ----
     N = ctx.n(40, 2500) * scale
-    programs = [progen.Program(src, [(name, [args], 'int')]) for name, src, args in WITNESSES]
+    programs = [progen.Program(src, [(name, [args], 'int')]) for name, src, args in WITNESSES] + [progen.Program(GENERICS, [('g_main', [(3,)], 'int')])]
     for i in range(N + len(programs)):
         p = programs[i] if i < len(programs) else progen.gen_program(rnd, rnd.randint(1, 3))
         try:
@@ -450,11 +486,48 @@ def run(ctx: Ctx) -> None:
                     ctx.count('symbol:' + ('agree' if ok else 'undecided' if ok is None else 'differ'))
                     if ok is False:
                         kind = 'unknown' if 'Unknown' in inferred else 'mismatch'
-                        ctx.violation('%s:%s-for-%s@%s' % (kind, re.sub(r'<.*', '', inferred), re.sub(r'<.*', '', short(d)), via),
+                        ctx.violation(sig_of(re.sub(r'<.*', '', inferred), re.sub(r'<.*', '', short(d)), via, kind),
                                       'the inferred type %s of %s (declared from a %s) is not the type %s its value has at run time' % (inferred, q + '.' + name, via, short(d)),
                                       dict(input=dict(source=p.src, symbol=q + '.' + name, entries=[[e[0], [list(a) for a in e[1]]] for e in p.entries]), oracle_result=short(d), impl_result=inferred))
                         break
 
+
+# generic signatures with a type variable two levels deep, instantiated twice; library generics over two element types
+GENERICS = '''from typing import TypeVar
+
+K = TypeVar('K')
+T = TypeVar('T')
+
+def both(k: K, v: T) -> dict[K, list[T]]:
+	return {k: [v]}
+
+def first(xs: list[T]) -> T:
+	return xs[0]
+
+def g_main(n: int) -> int:
+	p_both = both('a', 1.5)
+	q_both = both(n, 'x')
+	q_elem = q_both[n][0]
+	p_elem = p_both['a'][0]
+	fs = [1.5, 2.5]
+	ss = ['a', 'b']
+	total = 0
+	for i, f in enumerate(fs):
+		f_seen = f
+		total += i
+	for j, s in enumerate(ss):
+		s_seen = s
+		total += j
+	d1 = {'a': 1}
+	d2 = {1: 'a'}
+	for k1, v1 in d1.items():
+		total += v1
+	for k2, v2 in d2.items():
+		total += k2
+	e1 = first(fs)
+	e2 = first(ss)
+	return total
+'''
 
 # the refutation witnesses of Properties/C03.v as programs (replayed against the real inference on every run)
 WITNESSES = [
